@@ -214,6 +214,17 @@ def run(ctx) -> None:
                                     for c_ in ast.walk(rf))
         ctx.check("R3", ok, "_reset_rollover_fields: reset items computed from (fields, old_vinfo, cur_vinfo)", "v2version._reset_rollover_fields: reset items computed from other arguments",
                   unparse(rf) if rf is not None else "", loc=rr.loc())
+    # the explicit reset chain `if '<f>' in reset_fields: cur_vinfo = cur_vinfo._replace(<f>=<const>)` repeats the table: same values
+    init_tab = prog.const("version", "V2_FIELD_INITIAL_VALUES")
+    for iff in [n for n in walk_no_nested(rr.node) if isinstance(n, ast.If) and isinstance(n.test, ast.Compare) and isinstance(n.test.ops[0], ast.In) and const_str(n.test.left)]:
+        for c_ in ast.walk(iff):
+            if isinstance(c_, ast.Call) and isinstance(c_.func, ast.Attribute) and c_.func.attr == "_replace":
+                for kw_ in c_.keywords:
+                    if kw_.arg in init_tab and isinstance(kw_.value, ast.Constant):
+                        want_v = int(init_tab[kw_.arg]) if init_tab[kw_.arg].isdigit() else init_tab[kw_.arg]
+                        ctx.check("R3", kw_.value.value == want_v, f"_reset_rollover_fields: explicit reset of {kw_.arg} to {want_v!r} (V2_FIELD_INITIAL_VALUES)",
+                                  f"v2version._reset_rollover_fields: `{kw_.arg}` is reset to a value other than its initial value",
+                                  f"`{unparse(c_)}` under `{unparse(iff.test)}`; the table says {init_tab[kw_.arg]!r}", loc=rr.loc(c_), witness={"field": kw_.arg, "reset to": kw_.value.value})
     fd = shapes.single_def(rr, "fields")
     ctx.check("R3", fd is not None and unparse(fd) == "_parse_pattern_fields(raw_pattern)", "_reset_rollover_fields: field order from _parse_pattern_fields(raw_pattern)",
               "v2version._reset_rollover_fields: field order not taken from the pattern", "", loc=rr.loc())
@@ -306,9 +317,33 @@ def run(ctx) -> None:
     args.update(shapes.kwargs_of(ctor[0]))
     ctx.floor("R5", "calendar fields carried over by _ver_to_cal_info", len(args), 9)
     p_v = p_v_txt
+    import types as _types
     for f in cal_fields:
         e = args.get(f)
         ctx.require(e is not None, f"_ver_to_cal_info does not pass {f}")
+        # the value: the parsed field when it is present (0 included where 0 is a value of the field), today's otherwise -
+        # decided by folding the argument for a present / absent / zero field
+        e_in = e
+        roots_ = sorted({x.value.id for x in ast.walk(e_in) if isinstance(x, ast.Attribute) and isinstance(x.value, ast.Name) and x.attr == f})
+        other = [r_ for r_ in roots_ if r_ != p_v]
+        if p_v in roots_ and len(other) <= 1:
+            samples_ = [None, 7] + ([0] if f in zero_fields else [])
+            bad_ = None
+            for v_ in samples_:
+                env_ = {p_v: _types.SimpleNamespace(**{f: v_})}
+                if other:
+                    env_[other[0]] = _types.SimpleNamespace(**{f: 99})
+                try:
+                    got_ = prog.fold(vc.module, e_in, env_)
+                except AnalysisError:
+                    got_ = "?"
+                want_ = v_ if v_ is not None else (99 if other else None)
+                if got_ != "?" and got_ != want_ and bad_ is None:
+                    bad_ = (v_, got_, want_)
+            ctx.check("R5", bad_ is None, f"_ver_to_cal_info: {f} is the parsed value when there is one, today's otherwise",
+                      f"v2version._ver_to_cal_info: field '{f}' is not carried over from the pinned version",
+                      f"`{unparse(e)}`: for a parsed {f}={bad_[0]!r} the pinned calendar gets {bad_[1]!r} instead of {bad_[2]!r}" if bad_ else "", loc=vc.loc(e),
+                      witness={"field": f, "parsed": bad_[0], "pinned": bad_[1]} if bad_ else None)
         uses_truthiness = any(isinstance(op, ast.Attribute) and op.attr == f for _c, op in shapes.bool_contexts(e))
         mentions = any(isinstance(x, ast.Attribute) and x.attr == f and unparse(x.value) == p_v for x in ast.walk(e))
         ctx.check("R5", mentions, f"_ver_to_cal_info: {f} carried over from the parsed version", f"v2version._ver_to_cal_info: field '{f}' is not taken from the pinned version",
